@@ -45,9 +45,33 @@ func checkC11(R *Run) {
 		"rsrcPath":       "(*hotline.fileWrapper).rsrcForkName(param:f)",
 		"infoPath":       "(*hotline.fileWrapper).infoForkName(param:f)",
 	}
+	// the paths NewFileWrapper gives the wrapper (the names the wrapper looks for)
+	pathOf := map[string]string{}
+	if nf := P.fn("hotline.NewFileWrapper"); nf != nil {
+		eachInstr(nf, func(ins ssa.Instruction) {
+			if st, ok := ins.(*ssa.Store); ok {
+				if fa, ok := st.Addr.(*ssa.FieldAddr); ok {
+					f, _ := fieldOf(fa)
+					if strings.HasPrefix(f, "hotline.fileWrapper.") {
+						pathOf[shortField(f)] = P.sym(st.Val)
+					}
+				}
+			}
+		})
+	}
+	// a name built in place, X(f.Name), is the wrapper's own name for the field when NewFileWrapper's path is Join(dir, X(name))
+	inlineName := func(field, sym string) bool {
+		if sym == "" || pathOf["Name"] == "" {
+			return false
+		}
+		want := strings.ReplaceAll(sym, "field:hotline.fileWrapper.Name", pathOf["Name"])
+		return want != sym && strings.Contains(pathOf[field], want) && strings.HasPrefix(pathOf[field], "Join(")
+	}
+	inPlace := map[string]bool{}
 	if mv := R.mustFn("(*hotline.fileWrapper).Move"); mv != nil {
 		R.analysed(fname(mv))
 		moved := map[string]string{}
+		movedRaw := map[string]string{}
 		for _, ci := range callsIn(mv) {
 			c := ci.Common()
 			if calleeName(c) != "(hotline.FileStore).Rename" && calleeName(c) != "os.Rename" {
@@ -63,6 +87,7 @@ func checkC11(R *Run) {
 				a := callArgsFlat(&dst.Call)
 				if len(a) == 2 && a[0] == ssa.Value(mv.Params[1]) {
 					target = stripRecvKeepParam(P.sym(a[1]))
+					movedRaw[shortField(src)] = stripRecv(P.sym(a[1]))
 				}
 			}
 			moved[shortField(src)] = target
@@ -71,6 +96,9 @@ func checkC11(R *Run) {
 			got, ok := moved[f]
 			want := wantName[f]
 			good := ok && (want == "" || normName(got) == normName(want))
+			if ok && !good && f != "dataPath" && inlineName(f, movedRaw[f]) {
+				good, inPlace[f] = true, true
+			}
 			R.check(good, "sidefile-complete", "hotline.fileWrapper.Move: "+f, P.pos(mv.Pos()), "renamed to Join(newPath, "+got+")",
 				fmt.Sprintf("Move does not take %s along to Join(newPath, its own name) (found target %q): the side file stays behind or is renamed to a wrong name", f, got))
 		}
@@ -164,21 +192,14 @@ func checkC11(R *Run) {
 	}
 	// name methods vs NewFileWrapper paths
 	if nf := R.mustFn("hotline.NewFileWrapper"); nf != nil {
-		pathOf := map[string]string{}
-		eachInstr(nf, func(ins ssa.Instruction) {
-			if st, ok := ins.(*ssa.Store); ok {
-				if fa, ok := st.Addr.(*ssa.FieldAddr); ok {
-					f, _ := fieldOf(fa)
-					if strings.HasPrefix(f, "hotline.fileWrapper.") {
-						pathOf[shortField(f)] = P.sym(st.Val)
-					}
-				}
-			}
-		})
 		nameSym := pathOf["Name"]
 		for field, method := range map[string]string{"incompletePath": "incompleteDataName", "rsrcPath": "rsrcForkName", "infoPath": "infoForkName"} {
 			m := P.fn("(*hotline.fileWrapper)." + method)
 			if m == nil {
+				if inPlace[field] {
+					R.ok("sidefile-complete", "hotline.fileWrapper."+method+" vs "+field, "-", "the name is built in place in Move with the construction NewFileWrapper uses")
+					continue
+				}
 				R.und("sidefile-complete", "name method "+method, "-", "method does not exist")
 				continue
 			}
